@@ -211,7 +211,37 @@ fn c16_random(c: &mut Case) -> Result<(), String> {
 
 pub const RULE_C16: &str = "exhaustive groups: every byte value 0-255 in every lane 0-31 of a 32-byte block (as a lone block, followed by a 5-byte scalar tail, and as second block), and every length 0-200 with four content styles; sampled group: lengths mixing several vector blocks and a tail, up to 4 KiB, over {ACGTacgtNn}, mostly-valid with arbitrary bytes, arbitrary bytes, and bytes sharing nibbles/high bits with ACGT; each string checked through from_acgt_bytes (vector path) vs byte table, == DnaString::from_bytes, from_dna_string, to_ascii_vec/to_string, forced-scalar path (hook), from_dna_only_string runs, from_acgt_bytes_hashn (ACGT untouched, <= 3, repeatable, substitute independent of other bytes); distinct = hash(bytes)";
 
+/// interpreter-sized exhaustive pass: 256 calls cover every byte value in every lane once
+fn c16_exhaustive_light(c: &mut Case) -> Result<(), String> {
+    let v0 = c.idx as u8;
+    let mut block = [0u8; 32];
+    for lane in 0..32 {
+        block[lane] = v0.wrapping_add((lane as u8).wrapping_mul(8));
+    }
+    let tail = (c.idx % 7) as usize;
+    let mut bytes = block.to_vec();
+    bytes.extend_from_slice(&block[..tail]);
+    let x = DnaString::from_acgt_bytes(&bytes);
+    let exp: S = bytes.iter().map(|b| table(*b)).collect();
+    ensure!(x.to_bytes() == exp, "from_acgt_bytes differs from the byte table on block base value {:#04x}", v0);
+    ensure!(x == DnaString::from_bytes(&exp), "from_acgt_bytes value != from_bytes");
+    c.count("exhaustive_value_lane_pairs", 32);
+    c.nontrivial(v0 as u64);
+    Ok(())
+}
+
 pub fn run_c16(ctx: &Ctx) {
+    if ctx.is_miri() {
+        // shard-friendly: the caller splits the 256 + 131 calls over processes
+        ctx.run_group("exhaustive_value_lane_light", 256, true, |c| c16_exhaustive_light(c));
+        ctx.run_group("lengths_light", 131, true, |c| {
+            let n = c.idx as usize;
+            let bytes: Vec<u8> = (0..n).map(|_| b"ACGTacgtN\x00\xff"[c.rng.below(11)]).collect();
+            check_bytes(&bytes, false)
+        });
+        ctx.add_count("avx2_detected", std::is_x86_feature_detected!("avx2") as u64);
+        return;
+    }
     ctx.run_group("exhaustive_value_lane", 256, true, |c| c16_exhaustive(c));
     ctx.run_group("all_lengths", 201, true, |c| c16_lengths(c));
     let n = ctx.n(200_000, 30_000_000);
